@@ -38,7 +38,7 @@ def main(argv=None) -> int:
             with open(a.replay) as f:
                 data = json.load(f)
             with common.quiet():
-                bad, msg = mod.replay(data)
+                bad, msg = common.replay_timeout(data) if data.get("kind") == "harness:timeout" else mod.replay(data)
             print(f"replay {a.replay}: {'REPRODUCED' if bad else 'not reproduced'}: {msg}")
             if bad:
                 print(f"VIOLATION property={pid} replay={a.replay}")
